@@ -125,6 +125,8 @@ def kkey(k):
 def features(k, h, exp):
     """the specific part of a mismatch signature: direction, alignment, operator classes, emptiness"""
     f = ["inc" if k["upd"] in ("preinc", "postinc", "addeq") else "dec"]
+    if k.get("ity", "int") != "int":
+        f.append("ity=" + k["ity"])
     if k["upd"] in ("addeq", "subeq"):
         f.append("step")
     for role, d in (("init", k["ci"]), ("bound", k["cb"]), ("step", k["cs"])):
